@@ -75,8 +75,10 @@ def key_cast(container, key):
 def host_env():
     hobj = [[D(1)], {'k': [D(2)]}]
     shared = [D(5)]
-    names = {'h': hobj, 'x': [[D(0)]], 'y': {'k': [D(1)], 'a': shared}, 'z': [[D(2)], shared]}
-    return names, [hobj, shared]
+    import threading
+    unc = {'items': [D(1)], 'lock': threading.Lock(), 'k': [D(4)]}       # deepcopy of this host object fails
+    names = {'h': hobj, 'x': [[D(0)]], 'y': {'k': [D(1)], 'a': shared}, 'z': [[D(2)], shared], 'u': unc}
+    return names, [hobj, shared, unc]
 
 
 def run_program(case):
@@ -286,7 +288,7 @@ def run_program(case):
         return fails, info
     # the host mutates its own objects between the evals (in both worlds)
     for world in (ihost, rhost):
-        hobj, shared = world
+        hobj, shared = world[0], world[1]
         if hobj and isinstance(hobj[0], list):
             hobj[0].append(D(99))
         if len(hobj) > 1 and isinstance(hobj[1], dict) and isinstance(hobj[1].get('k'), list):
@@ -352,6 +354,8 @@ def cases(draw):
     def stmt():
         r = n(100)
         v = pick(VARS)
+        if r < 2:
+            return pick(['x = u', 'x = u\nx["items"].push(9)', 'y["k"] = u', 'z[0] = u["items"]\nz[0].push(8)', 'x = [u]', 'x = u["k"]\nx.push(3)'])
         if r < 4:
             return pick([f'{v}[0] = {v}[0]', f'{v}[1] = {v}[1]', 'y["a"] = y["a"]', 'y["a"] = get(y, "a", [])', f'{v}["k"] = {v}["k"] or []'])
         if r < 30:
